@@ -31,6 +31,9 @@ trait PollS: Send { fn poll(&mut self) -> Option<Got>; /// `Some(None)` = end of
     fn poll_w(&mut self, w: &Waker) -> Option<Option<u32>>; }
 trait MultiApi: Send + Sync {
     fn send(&self, v: u32) -> bool;
+    /// the same event through another entry point: 1 = `send_with`, 2 = `reserve_slot` + `try_send_reserved` (where implemented),
+    /// 3 = `send_with_async` with a setter that is ready at once; anything else (or unsupported) = `send`
+    fn send_how(&self, v: u32, how: u32) -> bool;
     fn create(&self) -> (Box<dyn PollS>, u32);
     fn running(&self) -> u32;
     fn buffer(&self) -> usize;
@@ -41,9 +44,26 @@ struct W<C: 'static>(&'static Arc<C>);
 struct S<St>(St);
 
 macro_rules! multi_impl {
-    ($ty:ty, $item:ty, $n:literal, $conv:expr) => {
+    ($ty:ty, $item:ty, $n:literal, $rsv:literal, $conv:expr) => {
         impl MultiApi for W<$ty> {
             fn send(&self, v: u32) -> bool { self.0.send(v).is_ok() }
+            fn send_how(&self, v: u32, how: u32) -> bool {
+                match how {
+                    1 => self.0.send_with(|slot| *slot = v).is_ok(),
+                    2 if $rsv => match self.0.reserve_slot() {
+                        Some(slot) => { *slot = v; let mut tries = 0; while !self.0.try_send_reserved(slot) { tries += 1; if tries > 1000 { panic!("try_send_reserved never answered true") } } true }
+                        None => false },
+                    3 => {
+                        let ch: &'static $ty = &**self.0;
+                        let mut fut = Box::pin(async move { ch.send_with_async(move |slot| async move { *slot = v; slot }).await.is_ok() });
+                        let w: Waker = Arc::new(NoWake).into();
+                        let mut cx = Context::from_waker(&w);
+                        let mut polls = 0;
+                        loop { match std::future::Future::poll(fut.as_mut(), &mut cx) { Poll::Ready(ok) => break ok, Poll::Pending => { polls += 1; if polls > 1000 { panic!("send_with_async with a ready setter stayed pending") } } } }
+                    }
+                    _ => self.0.send(v).is_ok(),
+                }
+            }
             fn create(&self) -> (Box<dyn PollS>, u32) { let (s, id) = self.0.create_stream_for_new_events(); (Box::new(S(s)), id) }
             fn running(&self) -> u32 { self.0.running_streams_count() }
             fn buffer(&self) -> usize { $n }
@@ -64,11 +84,11 @@ macro_rules! multi_impl {
     };
 }
 macro_rules! kinds { ($m:literal) => {
-    multi_impl!(ChannelMultiArcAtomic<u32, 8, $m>, Arc<u32>, 8, |a: Arc<u32>| (*a, Arc::as_ptr(&a) as usize, Box::new(a) as Box<dyn Held>));
-    multi_impl!(ChannelMultiArcFullSync<u32, 8, $m>, Arc<u32>, 8, |a: Arc<u32>| (*a, Arc::as_ptr(&a) as usize, Box::new(a) as Box<dyn Held>));
-    multi_impl!(ChannelMultiArcCrossbeam<u32, 8, $m>, Arc<u32>, 8, |a: Arc<u32>| (*a, Arc::as_ptr(&a) as usize, Box::new(a) as Box<dyn Held>));
-    multi_impl!(ChannelMultiOgreArcAtomic<u32, 8, $m>, OgreArc<u32, AllocatorAtomicArray<u32, 8>>, 8, |a: OgreArc<u32, AllocatorAtomicArray<u32, 8>>| (*a, &*a as *const u32 as usize, Box::new(a) as Box<dyn Held>));
-    multi_impl!(ChannelMultiOgreArcFullSync<u32, 8, $m>, OgreArc<u32, AllocatorFullSyncArray<u32, 8>>, 8, |a: OgreArc<u32, AllocatorFullSyncArray<u32, 8>>| (*a, &*a as *const u32 as usize, Box::new(a) as Box<dyn Held>));
+    multi_impl!(ChannelMultiArcAtomic<u32, 8, $m>, Arc<u32>, 8, false, |a: Arc<u32>| (*a, Arc::as_ptr(&a) as usize, Box::new(a) as Box<dyn Held>));
+    multi_impl!(ChannelMultiArcFullSync<u32, 8, $m>, Arc<u32>, 8, false, |a: Arc<u32>| (*a, Arc::as_ptr(&a) as usize, Box::new(a) as Box<dyn Held>));
+    multi_impl!(ChannelMultiArcCrossbeam<u32, 8, $m>, Arc<u32>, 8, false, |a: Arc<u32>| (*a, Arc::as_ptr(&a) as usize, Box::new(a) as Box<dyn Held>));
+    multi_impl!(ChannelMultiOgreArcAtomic<u32, 8, $m>, OgreArc<u32, AllocatorAtomicArray<u32, 8>>, 8, true, |a: OgreArc<u32, AllocatorAtomicArray<u32, 8>>| (*a, &*a as *const u32 as usize, Box::new(a) as Box<dyn Held>));
+    multi_impl!(ChannelMultiOgreArcFullSync<u32, 8, $m>, OgreArc<u32, AllocatorFullSyncArray<u32, 8>>, 8, true, |a: OgreArc<u32, AllocatorFullSyncArray<u32, 8>>| (*a, &*a as *const u32 as usize, Box::new(a) as Box<dyn Held>));
 } }
 kinds!(1); kinds!(2); kinds!(4);
 
@@ -115,7 +135,8 @@ fn do_drop(ctx: &sched::Ctx, sh: &Mutex<Shared>, lt: usize, li: usize) {
 fn do_send(ctx: &sched::Ctx, ch: &dyn MultiApi, sh: &Mutex<Shared>, lt: usize, v: u32) {
     let pos = ctx.call(lt, &format!("send {v}"));
     sh.lock().unwrap().inflight.push(v);
-    let ok = ch.send(v);
+    // (every entry point that can accept an event, chosen from the event's number: the model's fan-out is the same for all of them)
+    let ok = if v >= 9000 { ch.send(v) } else { ch.send_how(v, v % 4) };
     let r = ctx.ret(if ok { "unit" } else { "full" });
     let mut g = sh.lock().unwrap();
     g.inflight.retain(|x| *x != v);
